@@ -86,7 +86,7 @@ func loadKnownFindings() []knownFinding {
 }
 
 func (s Selector) matches(fn string, o *Obl) bool {
-	if s.Func != "" && expandKey(s.Func) != fn {
+	if s.Func != "" && expandKey(s.Func) != fn && !strings.HasPrefix(fn, expandKey(s.Func)+"{") {
 		return false
 	}
 	if s.Kinds != "" && !strings.Contains(s.Kinds, o.Kind) {
@@ -153,13 +153,14 @@ func cmdCheck(args []string) int {
 	var results []*FuncResult
 	var undecided []string
 	for _, k := range fnKeys {
-		r := verifyFunc(prog, k)
-		results = append(results, r)
-		for _, e := range r.Errors {
-			undecided = append(undecided, "engine: "+e)
-		}
-		for _, d := range r.Drift {
-			undecided = append(undecided, "contract-drift: "+d)
+		for _, r := range verifyAll(prog, k) {
+			results = append(results, r)
+			for _, e := range r.Errors {
+				undecided = append(undecided, "engine: "+e)
+			}
+			for _, d := range r.Drift {
+				undecided = append(undecided, "contract-drift: "+d)
+			}
 		}
 	}
 	for _, ln := range def.Lemmas {
@@ -206,7 +207,7 @@ func cmdCheck(args []string) int {
 		defer os.RemoveAll(work)
 	}
 	os.RemoveAll(work)
-	quickSec, fullSec := 4, 20
+	quickSec, fullSec := 8, 30
 	all := false
 	if *tier == "thorough" {
 		quickSec, fullSec, all = 60, 60, true
